@@ -549,8 +549,11 @@ def check(ctx):
         want_ro = fact_key('metadata & 64 != 0', True) in g2.fact_keys_at(n)
         okro = okro and norm(n.ast.value) == ('ParamTocElement.RO_ACCESS' if want_ro else 'ParamTocElement.RW_ACCESS')
     ctx.inst('R6', init, 'param-readonly-bit', okro, 'access = RO iff bit 6 set')
-    ctx.inst('R6', init, 'param-type-lookup', norm(sts['self.ctype'].value) == 'self.types[metadata & 15][0]' and
-             norm(sts['self.pytype'].value) == 'self.types[metadata & 15][1]', 'ctype/pytype come from columns 0/1 of the type row')
+    def _thru(st_):
+        n_ = g2.node_of(st_.value)
+        return norm(g2.expand_locals(n_, st_.value, pure_only=False, keep=('metadata', 'data'))) if n_ is not None else norm(st_.value)
+    ctx.inst('R6', init, 'param-type-lookup', _thru(sts['self.ctype']) == 'self.types[metadata & 15][0]' and
+             _thru(sts['self.pytype']) == 'self.types[metadata & 15][1]', 'ctype/pytype come from columns 0/1 of the type row')
     le = m.cls(LOG, 'LogTocElement')
     ltypes = fold_in(le.method('__init__'), le.consts['types'])
     ctx.need(isinstance(ltypes, dict), 'LogTocElement.types not foldable')
